@@ -1,6 +1,7 @@
 (* C05 lemmas about Model/MeatDairy.v *)
 From Coq Require Import QArith List String Bool Lqa Lia Arith.
 From Allfed Require Import Base.StrUtil Model.MeatDairy.
+From Allfed Require Base.QList Model.Helpers Proofs.Helpers.
 Import ListNotations.
 Open Scope Q_scope.
 Local Arguments Qred : simpl never.
@@ -544,30 +545,25 @@ Proof.
 Qed.
 
 (* ------------------------------------------------------------------ the charge of the final round *)
-Lemma increase_month_feed_ge b f i mb mf tc : f <= snd (increase_month b f i mb mf tc).
-Proof. unfold increase_month; simpl. generalize (Qmax0_nonneg (Qmin' (
-  (if Qle_bool (Qmin' (b + i) mb - b + (Qmin' (f + i) mf - f) + b + f) tc
-   then Qmin' (b + i) mb - b + (Qmin' (f + i) mf - f) else tc - b - f) -
-  (if Qle_bool (Qmin' (b + i) mb - b + (Qmin' (f + i) mf - f) + b + f) tc
-   then Qmin' (b + i) mb - b + (Qmin' (f + i) mf - f) else tc - b - f) *
-  ((Qmin' (b + i) mb - b) / (Qmin' (b + i) mb - b + (Qmin' (f + i) mf - f) + (1 # 1000000000))))
-  (Qmin' (f + i) mf - f))). lra.
+(* the top-up is Model/Helpers.bump1 (C18), by computation; its properties are taken from Proofs/Helpers.v *)
+Lemma increase_month_bump1 b f i mb mf tc : increase_month b f i mb mf tc = Allfed.Model.Helpers.bump1 b f i mb mf tc.
+Proof.
+  unfold increase_month, Allfed.Model.Helpers.bump1, Allfed.Base.QList.npmin, Allfed.Base.QList.npmax, Qmin', Qmax0,
+         Allfed.Model.Helpers.regulariser. cbv zeta. reflexivity.
 Qed.
 
+Lemma increase_month_feed_ge b f i mb mf tc : f <= snd (increase_month b f i mb mf tc).
+Proof. rewrite increase_month_bump1. apply Allfed.Proofs.Helpers.bump1_never_lowers. Qed.
+
 Lemma increase_month_biofuel_ge b f i mb mf tc : b <= fst (increase_month b f i mb mf tc).
-Proof. unfold increase_month; simpl. match goal with |- _ <= _ + Qmax0 ?x => generalize (Qmax0_nonneg x) end. lra. Qed.
+Proof. rewrite increase_month_bump1. apply Allfed.Proofs.Helpers.bump1_never_lowers. Qed.
 
 Lemma charge_ge_eaten r1 eaten b : eaten <= charge_month r1 eaten b.
 Proof. unfold charge_month. destruct r1. apply increase_month_feed_ge. apply Qle_refl. Qed.
 
 (* no increase requested and nothing eaten: nothing charged, whatever the ceilings *)
 Lemma increase_month_zero b mb mf tc : snd (increase_month b 0 0 mb mf tc) == 0.
-Proof.
-  unfold increase_month; simpl.
-  match goal with |- 0 + Qmax0 (Qmin' ?u ?v) == 0 => assert (H : Qmin' u v <= 0) end.
-  { eapply Qle_trans. apply Qmin'_le_r. generalize (Qmin'_le_l (0 + 0) mf). lra. }
-  rewrite (Qmax0_nonpos _ H). lra.
-Qed.
+Proof. rewrite increase_month_bump1. apply Allfed.Proofs.Helpers.bump1_no_request; reflexivity. Qed.
 
 Lemma increase_of_same k const meat : 0 < k -> 0 <= const -> increase_of k const meat meat == 0.
 Proof.
@@ -581,17 +577,7 @@ Lemma charge_month_proper r1 e e' b : e == e' ->
   b_increase b == 0 -> e' == 0 -> charge_month r1 e b == 0.
 Proof.
   intros He Hi Hz. unfold charge_month. destruct r1; [|lra].
-  assert (E : snd (increase_month (b_biofuel b) e (b_increase b) (b_max_biofuel b) (b_max_feed b) (b_total_crops b)) ==
-              snd (increase_month (b_biofuel b) 0 0 (b_max_biofuel b) (b_max_feed b) (b_total_crops b))).
-  { unfold increase_month; simpl.
-    assert (Ee : e == 0) by lra.
-    (* both sides: feed + Qmax0 (...) with feed == 0 and the Qmin' argument bounded above by min(0, mf) - 0 *)
-    match goal with |- e + Qmax0 (Qmin' ?u ?v) == 0 + Qmax0 (Qmin' ?u' ?v') =>
-      assert (H1 : Qmin' u v <= 0); [|assert (H2 : Qmin' u' v' <= 0)] end.
-    - eapply Qle_trans. apply Qmin'_le_r. generalize (Qmin'_le_l (e + b_increase b) (b_max_feed b)). lra.
-    - eapply Qle_trans. apply Qmin'_le_r. generalize (Qmin'_le_l (0 + 0) (b_max_feed b)). lra.
-    - rewrite (Qmax0_nonpos _ H1), (Qmax0_nonpos _ H2). lra. }
-  rewrite E. apply increase_month_zero.
+  rewrite increase_month_bump1. apply Allfed.Proofs.Helpers.bump1_no_request; [lra|exact Hi].
 Qed.
 
 (* ------------------------------------------------------------------ decision tree *)
